@@ -641,3 +641,60 @@ M('hier-sorted-lls', ['C02'], LP,
   "        n_parameters = population_model.n_dim()\n        for log_likelihood in log_likelihoods:",
   "        log_likelihoods = sorted(log_likelihoods, key=id)\n        n_parameters = population_model.n_dim()\n        for log_likelihood in log_likelihoods:",
   'R02.9')
+# --- rules of the continuation session ---------------------------------------
+M('stale-config-read', ['C02'], LP,
+  "        n_parameters = population_model.n_dim()\n        for log_likelihood in log_likelihoods:",
+  "        n_parameters = population_model.n_dim()\n        n_top = population_model.n_parameters()\n        for log_likelihood in log_likelihoods:",
+  'R00')
+M('refresh-own-view', ['C08'], MM,
+  "            self._parameter_names = self._mechanistic_model.parameters()",
+  "            self._parameter_names = self.parameters()",
+  'R00')
+M('prior-gradient-dropped', ['C03'], LP,
+  "        score, sensitivities = self._log_prior.evaluateS1(parameters)\n        if np.isinf(score):\n            return score, sensitivities\n\n        # Compute log-likelihood and sensitivities\n        l, s = self._log_likelihood.evaluateS1(parameters)\n\n        # Aggregate scores\n        score += l\n        sensitivities += s\n",
+  "        score = self._log_prior(parameters)\n        if np.isinf(score):\n            return score, np.full(len(parameters), np.inf)\n\n        # Compute log-likelihood and sensitivities\n        l, sensitivities = self._log_likelihood.evaluateS1(parameters)\n\n        # Aggregate scores\n        score += l\n",
+  'R00')
+M('argsort-of-sorted', ['C13'], LP,
+  "        self._filter.sort_times(np.argsort(times))\n        self._times = np.sort(times)",
+  "        self._times = np.sort(times)\n        self._filter.sort_times(np.argsort(self._times))",
+  'R00')
+M('seed-truthiness', ['C16'], LP,
+  "        np.random.seed(seed)\n        return self._log_prior.sample(n_samples)",
+  "        if seed:\n            np.random.seed(seed)\n        return self._log_prior.sample(n_samples)",
+  'R00')
+M('element-result-at-cursor', ['C03'], LP,
+  "            sensitivities[n_mech+start:n_mech+end] += s[n_mech:]",
+  "            sensitivities[n_mech+start:n_mech+end] += s[n_mech+start:]",
+  'R05.4')
+M('weakened-shortcut', ['C08'], EM,
+  "        if self._fixed_params_mask is None:\n            return score, sensitivities",
+  "        if (self._fixed_params_mask is None) or np.isinf(score):\n            return score, sensitivities",
+  'R08.2')
+M('set-data-elif', ['C14', 'C17'], PB,
+  "                self._population_model.get_population_model()\n        if self._population_model is not None:\n            self._population_model.set_n_ids(len(self._ids))",
+  "                self._population_model.get_population_model()\n        elif self._population_model is not None:\n            self._population_model.set_n_ids(len(self._ids))",
+  'R14.7')
+M('stored-seed-unused', ['C16'], INF,
+  "        self._initial_params = self._log_posterior.sample_initial_parameters(\n            n_samples=self._n_runs, seed=self._seed)\n\n    def set_parallel_evaluation",
+  "        self._initial_params = self._log_posterior.sample_initial_parameters(\n            n_samples=self._n_runs)\n\n    def set_parallel_evaluation",
+  'R16.7')
+M('seed-int-conversion', ['C16'], PM,
+  "        # Sample from population model\n        sample = self._population_model.sample(",
+  "        # Sample from population model\n        if seed is not None:\n            seed = int(seed)\n        sample = self._population_model.sample(",
+  'R16.3')
+M('bottom-count-no-dim', ['C05', 'C17'], PM,
+  "        n_ids = int(n_ids)\n\n        return (n_ids * self._n_dim, self._n_parameters)",
+  "        return (int(n_ids), self._n_parameters)",
+  'R17.4', 2)
+M('drop-duplicates', ['C14'], PB,
+  "            [self._time_key, self._obs_key, self._value_key]]\n        for output in self._mechanistic_model.outputs():",
+  "            [self._time_key, self._obs_key, self._value_key]\n        ].drop_duplicates()\n        for output in self._mechanistic_model.outputs():",
+  'R14.1')
+M('field-alias-sort', ['C19', 'C13'], LP,
+  "        self._times = np.sort(times)\n\n        # Check mechanistic model",
+  "        self._times = np.asarray(times)\n        self._times.sort()\n\n        # Check mechanistic model",
+  'R19.2')
+M('unwrap-then-query', ['C13'], LP,
+  "        return self._population_model.get_special_dims()",
+  "        population_model = self._population_model\n        if isinstance(population_model, chi.ReducedPopulationModel):\n            population_model = population_model.get_population_model()\n        return population_model.get_special_dims()",
+  'R00')
